@@ -6,6 +6,9 @@ package unpackinfo
 // comments only; it is compiled only with the "verif" build tag.
 
 //@ func NewUnpackInfo -> (info, err)
+//@   opt propagate-errors
+//@   tolerates os.Lstat#1: isNotExist(_err)
+//@   sets $rejected = $rejected || err != nil
 //@   sweep
 //@   pure
 //@   replay unpackEntry: dst=dst, name=header.Name, typeflag=header.Typeflag
@@ -27,6 +30,9 @@ package unpackinfo
 //@   ensures C15.fields: err == nil ==> info.Typeflag == header.Typeflag && info.OriginalModTime == header.ModTime && info.OriginalAccessTime == header.AccessTime
 
 //@ func (UnpackInfo).RestoreInfo -> (err)
+//@   opt propagate-errors=deep
+//@   tolerates UnpackInfo.restoreDirectory.os.Chmod#1: isNotExist(_err)
+//@   tolerates UnpackInfo.restoreDirectory.os.Chtimes#1: isNotExist(_err)
 //@   pure
 //@   sweep
 //@   fswrite i.Path
